@@ -316,8 +316,9 @@ reg("C07", [
     M("C07", "origin", "writers",
       "same scenarios written with write_compressed_to at writer offsets 2 and 5: bytes (hence every pointer) identical to the offset-0 output",
       _W_FUNCS, params={'part': 'writers'}),
-    M("C07", "far", "packet_rt", "scenario 'far': names first written beyond offset 16383 (after a 16400-byte record) and then repeated",
-      _PKT_FUNCS, params={'only': ['far']}),
+    M("C07", "far", "packet_rt", "scenarios 'far' (names first written beyond offset 16383 after a 16400-byte record, then repeated) and "
+      "'straddle' (a name whose labels begin on both sides of offset 16383, followed by a name sharing only the late suffix)",
+      _PKT_FUNCS, params={'only': ['far', 'straddle']}),
 ], ["a pointer must land on the start of a label (or pointer) of a name written earlier at a compressible position; "
     "RDATA names of the must-not-compress types are required to be written in full and are not considered pointer targets"])
 
@@ -428,3 +429,11 @@ reg("C16", [
       ["<InstanceInformation as Hash>::hash", "<InstanceInformation as PartialEq>::eq", "HashSet iteration (model: every permutation)",
        "slice::sort (model)", "IpAddr Ord/Hash (model)"]),
 ], ["HashSet iteration order is modelled as an arbitrary permutation per iteration (std documents it as unspecified)"])
+
+reg("C05", [
+    M("C05", "counts", "packet_bytes",
+      "Packet::parse on fully symbolic messages of length 12..19 (quick) / ..23: whenever it succeeds, the number of questions / answers / "
+      "authority / additional entries returned (OPT counted once) equals the four header counts - counts running past the end are rejected",
+      ["Packet::parse", "Packet::parse_section", "header_buffer::{questions,answers,name_servers,additional_records}"],
+      params={'K_quick': 7, 'K_thorough': 11}),
+], [])
